@@ -46,6 +46,16 @@ def cases(tier, seed):
                 # line numbers avoid 0 here (a line numbered 0 is a known finding decided by C08)
                 kw = {'holes': conv.pick_holes(rng, nI, nX), 'il': [rng.choice([1, 5, 100, -500]), rng.choice([1, 2])],
                       'xl': [rng.choice([1, 20, -700]), rng.choice([1, 3])]}
+                if i % 8 == 6:
+                    # a whole interior line was never acquired and the line increment is not 1
+                    ax = (i // 8) % 2
+                    mh = conv.missing_line_holes(rng, nI, nX, axis=ax)
+                    if mh:
+                        kw['holes'] = mh
+                        kw['il' if ax == 0 else 'xl'][1] = rng.choice([3, 10])
+                        if any(kw['il'][0] + kw['il'][1] * j == 0 for j in range(nI)):
+                            kw['il'][0] += 1          # (no inline numbered 0: C08's known finding)
+                        kw['missing_line'] = True
             if geom == '3d' and i % 3 == 2:
                 kw['sorting'] = 1        # crossline-sorted regular file
             src = conv.src_desc(rng, geom, (nI, nX, rng.choice([4, 9, 20])), hdr=hdr, valkind='smooth', **kw)
@@ -96,6 +106,8 @@ def run_segy(case, ctx):
     strata = {'footprint:%s' % ('square' if bs[0] == bs[1] or geom == '2d' else 'non-square'), 'geom:' + geom, 'mode:' + mode, '4n%%512:%s' % ({0: '0', 4: '4', 508: '508'}.get((4 * (n if geom == '2d' else int(np.prod(case['src']['shape'][:2])))) % 512, 'other'))}
     for c in src.get('hdr_classes', {}).values():
         strata.add('class:' + c)
+    if case['src'].get('missing_line'):
+        strata.add('irregular-missing-line')
     inside = gen.heuristic_precondition(H)
     strata.add('precondition:' + ('inside' if inside else 'outside'))
     if mode == 'strip':
@@ -262,7 +274,7 @@ def finalize(tier, cases, results, counters, strata):
     reasons = []
     need = ['footprint:square', 'footprint:non-square', 'geom:3d', 'geom:irregular', 'geom:2d', 'geom:numpy', 'mode:heuristic', 'mode:thorough', 'mode:exhaustive', 'mode:strip',
             'class:const', 'class:vary', 'class:dup', 'class:extreme', 'class:neg', 'class:zerofirst', 'arrays>=3', '4n%512:0',
-            'precondition:inside', 'dtype:int64', 'dtype:int16', 'layout:F', 'layout:bcast', 'key:above193', 'key:below189']
+            'precondition:inside', 'irregular-missing-line', 'dtype:int64', 'dtype:int16', 'layout:F', 'layout:bcast', 'key:above193', 'key:below189']
     for s in need:
         if s not in strata:
             reasons.append('required stratum not hit: ' + s)
